@@ -67,7 +67,11 @@ class Framer:
                 break
             line_end = nl + 1
             head = bytes(self.buf[:line_end])
-            m = _lit_tail.search(head)
+            # only what follows the last literal can introduce another one
+            # (the literal's own content may end in "{n}")
+            m = _lit_tail.search(head, self.pos)
+            if m and len(m.group(2)) > 18:
+                m = None
             if m and not _is_status_line(head):
                 self.need = int(m.group(2))
                 self.pos = line_end
